@@ -203,38 +203,38 @@ Definition new_module (d : mdesc) (latest lsearch : bool) : modl :=
         (map (fun f => mkFeat (fst f) (snd f) false) (d_feats d)) [] (d_fault d) false None false
         (match d_feats d with [] => false | _ => true end).
 
+(* the first part of lys_parse_load: what the context has. (found, mod_latest) *)
+Definition pick_in_ctx (l : list modl) (name rev : N) : option modl * option modl :=
+  if negb (rev =? 0) then (get_module name rev l, None)
+  else match get_without_rev name l with
+       | Some m => if negb (m_impl m) && negb (m_imprev m) then (None, Some m) else (Some m, None)
+       | None => (None, None)
+       end.
+
+(* lys_parse_load_from_clb_or_file (imp_clb set, LY_CTX_DISABLE_SEARCHDIRS): the callback is not asked when the
+   latest module of the context already came from it; a module it serves is parsed with lys_parse_in, whose error
+   is ignored; without a revision the result gets LYS_MOD_LATEST_IMPCLB *)
+Definition load_from_clb (pin : state -> mdesc -> option (N * N) -> state * pres) (R : repo)
+           (s : state) (name rev : N) (mod_latest : option modl) : state * option key :=
+  if match mod_latest with Some ml => m_limpclb ml | None => false end then (s, None) else
+  match repo_serve R name rev with
+  | Some d =>
+      let '(s', r) := pin s d (Some (name, rev)) in
+      match r with
+      | POk k | PDup k => (if rev =? 0 then upd_s k (set_limpclb true) s' else s', Some k)
+      | _ => (s', None)
+      end
+  | None => (s, None)
+  end.
+
 (* lys_parse_load with the recursive lys_parse_in call as a parameter; None = error *)
 Definition parse_load (pin : state -> mdesc -> option (N * N) -> state * pres) (R : repo)
            (s : state) (name rev : N) : state * option key :=
-  let '(found, mod_latest) :=
-    if negb (rev =? 0) then (get_module name rev (mods s), None)
-    else match get_without_rev name (mods s) with
-         | Some m => if negb (m_impl m) && negb (m_imprev m) then (None, Some m) else (Some m, None)
-         | None => (None, None)
-         end in
+  let '(found, mod_latest) := pick_in_ctx (mods s) name rev in
   match found with
   | Some m => (s, Some (mkey m))
   | None =>
-      (* lys_parse_load_from_clb_or_file (imp_clb set, LY_CTX_DISABLE_SEARCHDIRS) *)
-      let '(s1, got) :=
-        match mod_latest with
-        | Some ml => if m_limpclb ml then (s, None) else
-            match repo_serve R name rev with
-            | Some d => let '(s', r) := pin s d (Some (name, rev)) in
-                        (s', match r with POk k | PDup k => Some k | _ => None end)
-            | None => (s, None)
-            end
-        | None =>
-            match repo_serve R name rev with
-            | Some d => let '(s', r) := pin s d (Some (name, rev)) in
-                        (s', match r with POk k | PDup k => Some k | _ => None end)
-            | None => (s, None)
-            end
-        end in
-      let s2 := match got with
-                | Some k => if rev =? 0 then upd_s k (set_limpclb true) s1 else s1
-                | None => s1
-                end in
+      let '(s2, got) := load_from_clb pin R s name rev mod_latest in
       match got, mod_latest with
       | None, None => (s2, None)                                           (* Loading module failed: LY_EVALID *)
       | None, Some ml =>
